@@ -23,6 +23,7 @@ struct Kind {
   virtual std::string read(void* h) = 0;
   virtual std::string initial(int payload) = 0;
   virtual bool swap(void* a, void* b) { (void)a; (void)b; return false; }   // true if the kind has a swap operation
+  virtual void clear(void* h, std::string& model) = 0;                      // drop the value through this handle (clear() / null assignment)
   virtual int objectId(void* h) { (void)h; return -1; }                     // RefCount::Ptr: id of the referenced object
 };
 std::string payloadText(int p) { return p == 0 ? "payload-zero-0123456789" : "second"; }
@@ -33,6 +34,7 @@ struct KString : Kind {
   void assign(void* d, void* s) override { *(String*)d = *(String*)s; }
   void modify(void* h, int tid, int n, std::string& m) override { char c = (char)('A' + tid); if (n & 1) { ((String*)h)->append(c); m += c; } else { String& s = *(String*)h; usize l = s.length(); s.resize(l + 1); ((char*)s)[l] = c; m += c; } }
   std::string read(void* h) override { const String& s = *(String*)h; return std::string((const char*)s, s.length()); }
+  void clear(void* h, std::string& m) override { ((String*)h)->clear(); m.clear(); }
   std::string initial(int p) override { return payloadText(p); }
 };
 struct KVarString : Kind {
@@ -42,6 +44,7 @@ struct KVarString : Kind {
   void assign(void* d, void* s) override { *(Variant*)d = *(Variant*)s; }
   void modify(void* h, int tid, int, std::string& m) override { char c = (char)('a' + tid); ((Variant*)h)->toString().append(c); m += c; }
   std::string read(void* h) override { String s = ((const Variant*)h)->toString(); return std::string((const char*)s, s.length()); }
+  void clear(void* h, std::string& m) override { ((Variant*)h)->clear(); m.clear(); }
   std::string initial(int p) override { return payloadText(p); }
   bool swap(void* a, void* b) override { ((Variant*)a)->swap(*(Variant*)b); return true; }
 };
@@ -53,6 +56,7 @@ struct KVarList : Kind {
   void assign(void* d, void* s) override { *(Variant*)d = *(Variant*)s; }
   void modify(void* h, int tid, int, std::string& m) override { ((Variant*)h)->toList().append(Variant(100 + tid)); m.insert(m.size() - 1, std::to_string(100 + tid) + ","); }
   std::string read(void* h) override { return show(*(const Variant*)h); }
+  void clear(void* h, std::string& m) override { ((Variant*)h)->clear(); m = "[]"; }
   std::string initial(int p) override { return "[" + std::to_string(p) + ",7,]"; }
   bool swap(void* a, void* b) override { ((Variant*)a)->swap(*(Variant*)b); return true; }
 };
@@ -63,6 +67,7 @@ struct KPtr : Kind {
   void assign(void* d, void* s) override { *(ObjPtr*)d = *(ObjPtr*)s; }
   void modify(void* h, int tid, int n, std::string& m) override { int id; { LedgerPause lp; id = g_objs++; } m = "own" + std::to_string(tid) + "." + std::to_string(n); *(ObjPtr*)h = new Obj(id, m); }
   std::string read(void* h) override { ObjPtr& p = *(ObjPtr*)h; return p ? p->tag : std::string("(null)"); }
+  void clear(void* h, std::string& m) override { *(ObjPtr*)h = (Obj*)0; m = "(null)"; }
   std::string initial(int p) override { return payloadText(p); }
   bool swap(void* a, void* b) override { ((ObjPtr*)a)->swap(*(ObjPtr*)b); return true; }
   int objectId(void* h) override { ObjPtr& p = *(ObjPtr*)h; return p ? p->id : -1; }
@@ -79,6 +84,7 @@ struct KXml : Kind {
     else { bool wasElem = v.isElement(); usize na = wasElem ? ((const Xml::Variant&)v).toElement().attributes.size() : 0; Xml::Element& e = v.toElement(); std::string t = "m" + std::to_string(tid); e.type = String(t.data(), t.size()); m = "E:" + t + "/" + std::to_string(na); }
   }
   std::string read(void* h) override { return show(*(const Xml::Variant*)h); }
+  void clear(void* h, std::string& m) override { ((Xml::Variant*)h)->clear(); m = "null"; }
   std::string initial(int p) override { return p == 0 ? "E:elem/1" : "T:text"; }
 };
 
